@@ -51,6 +51,7 @@ struct Client {
 	std::map<std::string, int> ledger;                          // id dump -> outstanding count (ledger mode)
 	uint64_t frames_out = 0, msgs_in = 0, reply_serial = 0;
 	bool is_canary = false; int canary_step = 0;
+	bool msg_done_turn = false;                       // faulty peers: at most one complete message per event-loop turn
 	int chunks_queued = 0; uint64_t last_chunk_t = 0;   // keeps a connection's bytes in order
 };
 
@@ -141,6 +142,7 @@ struct World : KernelHooks, ModelHost {
 	void c10_turn_end();
 	int classify_ws(Client &cl, const WsInFrame &wf);
 	bool wsstrict = false;
+	int last_fed_client = -1; int presumed_drop = -1; std::string presumed_prop, presumed_rule, presumed_detail;
 	bool try_match(Client &cl, const Frame &f, std::string &why);
 	bool match_close(Client &cl);
 	void after_match(Client &cl, const Exp &e, const Frame &f);
